@@ -2,7 +2,7 @@
    I/O glue only; the case syntax is documented in harness/src/bin/c20.rs. *)
 let show_r = function Ok v -> string_of_n v | Err -> "err" | Panic -> "builderr" | OutOfFuel -> "outoffuel"
 let parse_r s = if s = "err" then Err else if s = "builderr" then Panic else Ok (n_of_string s)
-let show_b b = if b then "ok" else "err"
+let show_b b = if b then "ok" else "rej"
 let show_o = function Some r -> show_r r | None -> "-"
 let parse_o s = if s = "-" then None else Some (parse_r s)
 
@@ -40,18 +40,24 @@ let parse_case (toks : string list) : case =
   { k_pool_deposit = pool; k_key_deposit = key; k_certs = certs; k_withdrawals = wdrl; k_proposals = props;
     k_inputs = ins; k_outputs = outs; k_donation = don }
 
+let contains (s : string) (sub : string) : bool =
+  let n = String.length s and m = String.length sub in
+  let rec go i = i + m <= n && (String.sub s i m = sub || go (i + 1)) in go 0
+
 let show_obs (o : obs) : string =
-  Printf.sprintf "ok hd=%s hi=%s hd2=%s hi2=%s cd=%s cr=%s wt=%s bd=%s bi=%s ti=%s to=%s xd=%s xi=%s sc=%s sw=%s dd=%s di=%s"
+  let fields = Printf.sprintf "hd=%s hi=%s hd2=%s hi2=%s cd=%s cr=%s wt=%s bd=%s bi=%s ti=%s to=%s xd=%s xi=%s sc=%s sw=%s dd=%s di=%s"
     (show_r o.o_helper_deposit) (show_r o.o_helper_implicit) (show_r o.o_helper_deposit_wire) (show_r o.o_helper_implicit_wire)
     (show_r o.o_cb_deposit) (show_r o.o_cb_refund) (show_r o.o_wb_total)
     (show_r o.o_tb_deposit) (show_r o.o_tb_implicit) (show_r o.o_tb_total_input) (show_r o.o_tb_total_output)
     (show_r o.o_helper_deposit_built) (show_r o.o_helper_implicit_built)
-    (show_b o.o_set_certs) (show_b o.o_set_withdrawals) (show_o o.o_dep_deposit) (show_o o.o_dep_implicit)
+    (show_b o.o_set_certs) (show_b o.o_set_withdrawals) (show_o o.o_dep_deposit) (show_o o.o_dep_implicit) in
+  (* first token: `ovf` when some figure is an overflow error, `ok` otherwise (only for the case distribution) *)
+  (if contains fields "=err" then "ovf " else "ok ") ^ fields
 
 (* the implementation's observation: "ok name=value …" in the fixed order of show_obs *)
 let parse_obs (impl : string list) : obs option =
   match impl with
-  | "ok" :: fields ->
+  | ("ok" | "ovf") :: fields ->
     let tbl = List.map (fun f -> match String.index_opt f '=' with
         | Some i -> (String.sub f 0 i, String.sub f (i + 1) (String.length f - i - 1))
         | None -> (f, "")) fields in
